@@ -62,6 +62,11 @@ type caseSpec struct {
 	Muxer bool   `json:"through_muxer"`
 	// HLS: the frames go to hls.SegmentGenerator and the finished segments are judged.
 	HLS bool `json:"through_hls_segment_generator,omitempty"`
+	// ExactAudio (HLS route): the audio stamps are sample-exact and gapless
+	// (pts_k = pts_0 + k*1024*90000/rate rounded or floored to a tick, pts_0 more
+	// than 100 ms from zero): every audio PES must then carry the supplied stamp
+	// of its first frame to within hlsExactTicks, for the whole history.
+	ExactAudio bool `json:"audio_stamps_sample_exact,omitempty"`
 	// LateParamSets: the packetizers / muxer are built while the stream's metadata
 	// holds no SPS/PPS yet (SDP without sprop-parameter-sets); they are filled in
 	// afterwards, before the first frame, the way the RTP depacketizer does when
@@ -319,6 +324,12 @@ func verify(c *caseSpec, ts []byte) (*stats, *failure) {
 // extrapolates from the sample count (av/format/hls/aac_jitter.go).
 const hlsAudioSync = 9000
 
+// hlsExactTicks: on a sample-exact gapless source the generator's estimate
+// base + floor(n*1024*90000/rate) differs from the supplied stamp only by the
+// rounding of the two terms (0 or 1 tick); 2 leaves room for a source that
+// rounds to nearest.
+const hlsExactTicks = 2
+
 // verifyParts judges a sequence of transport streams (one, or the finished
 // segments of an HLS stream in order) that together carry the source frames.
 // With hls set, an audio PES is a batch: a chain of ADTS frames, one per source
@@ -412,6 +423,7 @@ func verifyParts(c *caseSpec, parts [][]byte, hls bool) (*stats, *failure) {
 	match := func(carry [3]bool) (*stats, *failure) {
 		st := &stats{classes: append([]string(nil), st.classes...)}
 		vi, ai := 0, 0
+		audioSeen := 0
 		var batch []tsdemux.ADTSFrame // hls: ADTS frames of the current audio PES not yet matched
 		for n, f := range c.Frames {
 			src := f.payload()
@@ -433,13 +445,20 @@ func verifyParts(c *caseSpec, parts [][]byte, hls bool) (*stats, *failure) {
 					if p.StreamID&0xE0 != 0xC0 {
 						return st, fail("stream-id", "frame %d: audio PES has stream_id 0x%02x", n, p.StreamID)
 					}
-					if p.PTS == nil || *p.PTS+hlsAudioSync < wantPTS || *p.PTS > wantPTS+hlsAudioSync {
-						return st, fail("pts", "frame %d (first audio frame of batch %d): PES PTS decodes to %v, supplied %d (more than the 100 ms the HLS audio resynchronisation may move it)", n, ai, deref(p.PTS), wantPTS)
+					tol, why := uint64(hlsAudioSync), "more than the 100 ms by which the HLS audio resynchronisation may move the stamp of a source with jittery or gappy audio stamps"
+					if c.ExactAudio {
+						tol, why = hlsExactTicks, "the audio stamps of this source are sample-exact and gapless, the stamp the generator extrapolates from the sample count must coincide with the supplied one"
 					}
-					if p.PTS != nil && *p.PTS == wantPTS {
+					if p.PTS == nil || *p.PTS+tol < wantPTS || *p.PTS > wantPTS+tol {
+						return st, fail("pts", "frame %d (first audio frame of batch %d, %d AAC frames into the stream): PES PTS decodes to %v, supplied %d (off by %d ticks; %s)", n, ai, audioSeen, deref(p.PTS), wantPTS, int64(derefU(p.PTS))-int64(wantPTS), why)
+					}
+					switch d := int64(*p.PTS) - int64(wantPTS); {
+					case d == 0:
 						st.classes = append(st.classes, "hls:audio-batch-stamp-exact")
-					} else {
-						st.classes = append(st.classes, "hls:audio-batch-stamp-extrapolated")
+					case d >= -hlsExactTicks && d <= hlsExactTicks:
+						st.classes = append(st.classes, "hls:audio-batch-stamp-within-2-ticks")
+					default:
+						st.classes = append(st.classes, "hls:audio-batch-stamp-moved-up-to-100ms")
 					}
 					if p.DTS != nil && *p.DTS != *p.PTS {
 						return st, fail("dts", "frame %d (audio): DTS %d differs from PTS %d", n, *p.DTS, *p.PTS)
@@ -455,6 +474,7 @@ func verifyParts(c *caseSpec, parts [][]byte, hls bool) (*stats, *failure) {
 					}
 				}
 				st.classes = append(st.classes, "frame:audio")
+				audioSeen++
 				fr0 := batch[0]
 				batch = batch[1:]
 				if !bytes.Equal(fr0.Payload, src) {
@@ -665,6 +685,13 @@ func bucket(n int) string {
 	default:
 		return "9+"
 	}
+}
+
+func derefU(p *uint64) uint64 {
+	if p == nil {
+		return 0
+	}
+	return *p
 }
 
 func deref(p *uint64) any {
